@@ -41,6 +41,9 @@ CHECKS = {
  'C04': dict(engine='E1-enum', technique='bounded-exhaustive enumeration of signatures x call shapes with CPython binding of an undecorated twin as reference',
    text='Every signature with 0-1 (quick) / 0-2 (thorough) parameters of each of the three named kinds plus optional *args/**kwargs, annotated or not, with every legal default placement (defaults are wrong-typed sentinels) is decorated and called with every call shape (positional count 0..P+2 x keyword subsets over parameter names and a surplus name x all-good / one-slot-str / one-slot-None values) under returning and raising bodies; binding, rejection, blamed parameter, run count, argument identity and result identity are compared with the undecorated twin.',
    note='CPython itself decides binding (inspect.signature.bind is not used); annotation is int throughout.', ref='5/C04'),
+ 'C08': dict(engine='E1-enum', technique='bounded-exhaustive enumeration of protocol operation sequences on decorated vs undecorated generator / async-generator / coroutine objects in lock step',
+   text='114 programs (15 generator bodies as sync and async generators, 3 suspending async bodies, 6 coroutine bodies, each with unannotated and annotated returns) x every sequence of <= 3 (5 thorough) protocol operations out of 8-9 (incl. falsy sent values and throwing the stop exceptions) are executed in lock step on fresh objects from the decorated and the undecorated function, driven by hand without an event loop; results, exception class/args/cause, per-object side-effect logs, suspension logs and finalisation are compared, the inspect kind is compared (also for 12 functools.wraps wrappers whose kind differs from the wrapped function), and wrongly typed coroutine results must raise the return violation.',
+   note='Bodies that yield while handling GeneratorExit are excluded as the property says; gc is disabled during a sequence.', ref='5/C08'),
 }
 NOT_YET = {}
 for i in range(1, 21):
